@@ -45,10 +45,18 @@ impl Ctx {
     }
     pub fn oracle_fail(&mut self, case: String, expected: String, observed: String) {
         self.oracle_checks += 1;
-        if self.oracle_failures.len() < 50 {
+        // failures carrying a `[marker]` prefix (candidate known findings) are capped per marker so that
+        // they can never crowd an unmarked — i.e. new — failure out of the report
+        let marker = if case.starts_with('[') { case.split(']').next().unwrap_or("").to_string() } else { String::new() };
+        let same = self.oracle_failures.iter().filter(|f| {
+            let m = if f.case.starts_with('[') { f.case.split(']').next().unwrap_or("").to_string() } else { String::new() };
+            m == marker
+        }).count();
+        let cap = if marker.is_empty() { 50 } else { 5 };
+        if same < cap {
             self.oracle_failures.push(OracleFailure { case, expected, observed });
         }
-        self.tag("oracle-failure");
+        self.tag(&format!("oracle-failure{}", if marker.is_empty() { String::new() } else { format!(":{}]", marker) }));
     }
     pub fn check(&mut self, ok: bool, case: impl FnOnce() -> String, expected: impl FnOnce() -> String, observed: impl FnOnce() -> String) {
         if ok {
